@@ -416,15 +416,15 @@ def run(ctx):
     trees += [(e, True) for e in small]
     if True:
         e2 = small
-        for _ in range(ctx.n(2500, 40000)):
+        for _ in range(ctx.n(2500, 12000)):
             r = rng.random()
             if r < 0.15:
                 trees.append(((rng.choice(['neg', 'pct']), rng.choice(e2)), True))
             else:
                 trees.append((('bin', rng.choice(OPS10), rng.choice(e2), rng.choice(e2)), True))
-    for _ in range(ctx.n(4000, 60000)):
+    for _ in range(ctx.n(4000, 12000)):
         trees.append((rand_tree(rng, rng.randrange(2, 9), True), True))
-    for _ in range(ctx.n(4000, 60000)):
+    for _ in range(ctx.n(4000, 12000)):
         trees.append((rand_tree(rng, rng.randrange(2, 9), False), False))
     # the witnesses of the design round (and relatives) are always in the stream
     two = ('num', '2')
